@@ -904,9 +904,10 @@ class StridedInterval:
             for t in o._ssplit():
                 card = s.udiv(t).cardinality
                 if card == 1:
-                    tmp = s.sub(s.udiv(t)).mul(t)
+                    # x % y = x - (x / y) * y
+                    tmp = s.sub(s.udiv(t).mul(t))
                 else:
-                    tmp = StridedInterval(bits=self.bits, stride=1, lower_bound=0, upper_bound=o.upper_bound - 1)
+                    tmp = StridedInterval(bits=self.bits, stride=1, lower_bound=0, upper_bound=t.upper_bound - 1)
                 all_resulting_intervals.append(tmp)
 
         return StridedInterval.least_upper_bound(*all_resulting_intervals).normalize()
